@@ -636,10 +636,13 @@ impl SwiftField for Field50InstructingParty {
                 let field = Field50L::parse(value)?;
                 Ok(Field50InstructingParty::L(field))
             }
-            _ => {
-                // No variant specified, fall back to default parse behavior
+            None => {
+                // No option letter given: the option is inferred from the content
                 Self::parse(value)
             }
+            Some(other) => Err(ParseError::InvalidFormat {
+                message: format!("Field 50 has no option {}", other),
+            }),
         }
     }
 
@@ -722,10 +725,13 @@ impl SwiftField for Field50OrderingCustomerFGH {
                 let field = Field50H::parse(value)?;
                 Ok(Field50OrderingCustomerFGH::H(field))
             }
-            _ => {
-                // No variant specified, fall back to default parse behavior
+            None => {
+                // No option letter given: the option is inferred from the content
                 Self::parse(value)
             }
+            Some(other) => Err(ParseError::InvalidFormat {
+                message: format!("Field 50 has no option {}", other),
+            }),
         }
     }
 
@@ -815,10 +821,13 @@ impl SwiftField for Field50OrderingCustomerAFK {
                 let field = Field50K::parse(value)?;
                 Ok(Field50OrderingCustomerAFK::K(field))
             }
-            _ => {
-                // No variant specified, fall back to default parse behavior
+            None => {
+                // No option letter given: the option is inferred from the content
                 Self::parse(value)
             }
+            Some(other) => Err(ParseError::InvalidFormat {
+                message: format!("Field 50 has no option {}", other),
+            }),
         }
     }
 
@@ -906,10 +915,9 @@ impl SwiftField for Field50OrderingCustomerNCF {
                 let field = Field50F::parse(value)?;
                 Ok(Field50OrderingCustomerNCF::F(field))
             }
-            _ => {
-                // Unknown variant, fall back to default parse behavior
-                Self::parse(value)
-            }
+            Some(other) => Err(ParseError::InvalidFormat {
+                message: format!("Field 50 has no option {}", other),
+            }),
         }
     }
 
@@ -980,10 +988,13 @@ impl SwiftField for Field50Creditor {
                 let field = Field50K::parse(value)?;
                 Ok(Field50Creditor::K(field))
             }
-            _ => {
-                // No variant specified, fall back to default parse behavior
+            None => {
+                // No option letter given: the option is inferred from the content
                 Self::parse(value)
             }
+            Some(other) => Err(ParseError::InvalidFormat {
+                message: format!("Field 50 has no option {}", other),
+            }),
         }
     }
 
